@@ -125,8 +125,12 @@ func (w *W) intText(dec string, allowFloatForms bool) {
 			w.B = append(w.B, neg+digits+"e0"...)
 		}
 		w.Stats["int-as-exponent"]++
-	case 5: // ddd0E-1
-		w.B = append(w.B, neg+digits+"0E-1"...)
+	case 5: // ddd0E-1 (0E-1 for zero: JSON forbids leading zeros)
+		if digits == "0" {
+			w.B = append(w.B, neg+"0E-1"...)
+		} else {
+			w.B = append(w.B, neg+digits+"0E-1"...)
+		}
 		w.Stats["int-as-exponent"]++
 	default:
 		w.B = append(w.B, dec...)
